@@ -1136,7 +1136,12 @@ func (t *State) procTodoBlkForWalk(todoBlocks []*pb.InternalBlock) (err error) {
 			showTxId = hex.EncodeToString(tx.Txid)
 			t.log.Debug("procTodoBlkForWalk", "txid", showTxId, "autogen", t.verifyAutogenTxValid(tx), "coinbase", tx.Coinbase)
 			// 校验定时交易合法性
-			if t.verifyAutogenTxValid(tx) && !tx.Coinbase {
+			if tx.Autogen && !tx.Coinbase {
+				// a transaction flagged autogen is exempt from the user-transaction verification
+				// below, so it has to be a well-formed timer transaction and verify as one
+				if !t.verifyAutogenTxValid(tx) {
+					return fmt.Errorf("immediate verify auto tx error.txid:%s,err:%v", showTxId, ErrInvalidAutogenTx)
+				}
 				// 校验auto tx
 				if ok, err := t.ImmediateVerifyAutoTx(todoBlk.Height, tx, false); !ok {
 					return fmt.Errorf("immediate verify auto tx error.txid:%s,err:%v", showTxId, err)
